@@ -233,8 +233,8 @@ theorem compact_inv (h : PInv2 p es) :
       have := off_lt_length h.toPInv x hx.1
       have := size_pos x
       simp only; omega
-  · rw [recover_eq, replay_seq]
-  · rw [recover_eq, replay_pid]
-  · rw [recover_eq, replay_threshold]
+  · rw [recover_eq, replay_seq]; rfl
+  · rw [recover_eq, replay_pid]; rfl
+  · rw [recover_eq, replay_threshold]; rfl
 
 end Influx.SF
